@@ -5,7 +5,14 @@ use std::collections::{BTreeMap, BTreeSet};
 use std::panic::{catch_unwind, AssertUnwindSafe};
 use std::time::Instant;
 
-pub const VERIF: &str = "/verif";
+/// output root (evidence, replays, KNOWN_FINDINGS.txt): /verif, or $HMC_VERIF for scratch runs of the self-test
+pub fn verif() -> String {
+    std::env::var("HMC_VERIF").unwrap_or_else(|_| "/verif".to_string())
+}
+/// repository root whose data files the oracles read: /repo, or $HMC_REPO for scratch runs of the self-test
+pub fn repo() -> String {
+    std::env::var("HMC_REPO").unwrap_or_else(|_| "/repo".to_string())
+}
 
 #[derive(Clone, Debug)]
 pub struct Violation {
@@ -190,7 +197,7 @@ pub fn install_panic_hook() {
             "<non-string panic>".to_string()
         };
         let loc = info.location().map(|l| format!("{}:{}", l.file(), l.line())).unwrap_or_default();
-        if loc.contains("/verif/harness/") || loc.starts_with("src/") || !IN_GUARD.with(|g| g.get()) {
+        if loc.contains("/harness/src/") || loc.starts_with("src/") || !IN_GUARD.with(|g| g.get()) {
             eprintln!("HARNESS-PANIC at {loc}: {msg}");
             eprintln!("{}", std::backtrace::Backtrace::force_capture());
             if !IN_GUARD.with(|g| g.get()) {
@@ -247,7 +254,7 @@ impl Panicked {
         "other".to_string()
     }
     pub fn in_harness(&self) -> bool {
-        self.loc.contains("/verif/harness/") || self.loc.starts_with("src/")
+        self.loc.contains("/harness/src/") || self.loc.starts_with("src/")
     }
 }
 
@@ -282,7 +289,7 @@ pub struct Finding {
 }
 
 pub fn load_known_findings() -> Vec<Finding> {
-    let path = format!("{VERIF}/KNOWN_FINDINGS.txt");
+    let path = format!("{}/KNOWN_FINDINGS.txt", verif());
     let mut out = vec![];
     let Ok(txt) = std::fs::read_to_string(&path) else { return out };
     for line in txt.lines() {
@@ -398,7 +405,7 @@ impl Report {
     pub fn finish(mut self) -> i32 {
         let known = load_known_findings();
         let wall = self.start.elapsed().as_secs_f64();
-        let replay_dir = format!("{VERIF}/replays/{}", self.property);
+        let replay_dir = format!("{}/replays/{}", verif(), self.property);
         let _ = std::fs::remove_dir_all(&replay_dir);
         let _ = std::fs::create_dir_all(&replay_dir);
         let mut sigs: Vec<(String, u64)> = self.total.sig_counts.iter().map(|(k, v)| (k.clone(), *v)).collect();
@@ -477,8 +484,8 @@ impl Report {
             "wall_s": (wall * 1000.0).round() / 1000.0,
             "violations": n_unknown,
         });
-        let _ = std::fs::create_dir_all(format!("{VERIF}/evidence"));
-        let evp = format!("{VERIF}/evidence/{}.json", self.property);
+        let _ = std::fs::create_dir_all(format!("{}/evidence", verif()));
+        let evp = format!("{}/evidence/{}.json", verif(), self.property);
         std::fs::write(&evp, serde_json::to_string_pretty(&ev).unwrap() + "\n").expect("write evidence");
         eprintln!(
             "[{}] tier={} states={} transitions={} traces={} nontrivial={} dontcare={} outcomes={} unknown-violations={} known-signatures={} exhaustive={} wall={:.1}s",
